@@ -389,10 +389,15 @@ impl M2Model {
             return Ok(Vec::new());
         }
 
-        // The view count is untrusted: every view needs its 44-byte record in the file, so the
-        // data bounds what is reserved up front
+        // The view count is untrusted, and every index yields a full parsed skin: models carry up
+        // to four profiles, anything far beyond that is not a model header.
         let count = self.header.views.count as usize;
-        let mut skins = Vec::with_capacity(count.min(original_m2_data.len() / 44));
+        if count > 64 {
+            return Err(M2Error::ParseError(format!(
+                "Model header announces {count} skin profiles. This may not be a valid pre-WotLK model."
+            )));
+        }
+        let mut skins = Vec::with_capacity(count);
 
         for i in 0..count {
             skins.push(self.parse_embedded_skin(original_m2_data, i)?);
